@@ -71,7 +71,7 @@ def run(chk):
                               "calls": [{"op": "begin", "token": [97]}, {"op": "begin", "token": [98]}, {"op": "commit", "token": [97], "amount": [2]},
                                         {"op": second, "token": [98], "amount": [1]}],
                               "plan": {"exchanges": [okp, okp, {"o": "abort", "code": code}, okp] + tail}})
-    walks = cl.random_walks(chk.seed + 19, 1500 if thorough else 80, 40)
+    walks = cl.random_walks(chk.seed + 19, 1500 if thorough else 80, 40, read_card=True, configure=True)
     scripts = cl.script_walks(chk, binary, wd, chk.seed + 19, 2000 if thorough else 150)
     out = cl.run_scenarios(binary, sc + extra + walks + scripts, wd, "c19")
     outs, ifl, pfl = cl.validate(chk, out, wd, "c19", shard=1500 if thorough else 400)
